@@ -27,6 +27,15 @@ use tokio::{
     sync::{mpsc, oneshot},
 };
 
+/// Maximum number of values (peers) returned in one `get_peers` response.
+///
+/// Every instance of this implementation receives into a 1500 byte buffer (see `Socket::recv`), so
+/// a response must not be longer than that or it can't be decoded. Without values, a response
+/// carrying 8 `nodes`, 8 `nodes6`, a token and a 32 byte transaction id takes 653 bytes; each
+/// IPv4 value adds 8 bytes and each IPv6 value adds 21 bytes.
+pub(crate) const MAX_VALUES_V4: usize = 100;
+pub(crate) const MAX_VALUES_V6: usize = 40;
+
 /// Storage for our EventLoop to invoke actions upon.
 pub(crate) struct DhtHandler {
     this_node_id: NodeId,
@@ -244,8 +253,13 @@ impl DhtHandler {
                     n.remote_request()
                 }
 
-                // TODO: Check what the maximum number of values we can give without overflowing a udp packet
-                // Also, if we arent going to give all of the contacts, we may want to shuffle which ones we give
+                // Limit the number of values so that the response fits into a single datagram (see
+                // `MAX_VALUES_V4`).
+                // TODO: if we arent going to give all of the contacts, we may want to shuffle which ones we give
+                let max_values = match addr {
+                    SocketAddr::V4(_) => MAX_VALUES_V4,
+                    SocketAddr::V6(_) => MAX_VALUES_V6,
+                };
                 let values: Vec<_> = self
                     .active_stores
                     .find_items(&g.info_hash)
@@ -260,6 +274,7 @@ impl DhtHandler {
                             (SocketAddr::V6(_), SocketAddr::V4(_)) => false,
                         }
                     })
+                    .take(max_values)
                     .collect();
 
                 // Grab the closest nodes
